@@ -165,10 +165,14 @@ func verifHarness_C01_v2_smallbuf(n int, signed int) {
 	w := &Writer{ByteWriter: rec}
 	verifAssert(w.Initialize() == nil, "C01/v2s/writer-init")
 	verifAssert(w.Write(fr) == nil, "C01/v2s/write-ok")
-	rd := &Reader{BufByteReader: bufio.NewReaderSize(&verifChunkReader{data: rec.buf}, 16)}
+	// the caller keeps using its own bufio.Reader for what follows the frame (here one more byte)
+	br := bufio.NewReaderSize(&verifChunkReader{data: append(append([]byte{}, rec.buf...), 0x55)}, 16)
+	rd := &Reader{BufByteReader: br}
 	verifAssert(rd.Initialize() == nil, "C01/v2s/reader-init")
 	got, err := rd.Read()
 	verifAssert(err == nil, "C01/v2s/read-ok")
+	next, nerr := br.ReadByte()
+	verifAssert(nerr == nil && next == 0x55, "C01/v2s/callers-buffer-holds-what-follows-the-frame")
 	g, ok := got.(*V2Frame)
 	verifAssert(ok, "C01/v2s/read-type")
 	verifAssert(verifAnd(g.CompatibilityFlag == compat, verifAnd(g.SequenceNumber == seq, verifAnd(g.SystemID == sys, g.ComponentID == comp))), "C01/v2s/header-fields")
@@ -197,10 +201,13 @@ func verifHarness_C01_v1_smallbuf(n int) {
 	w := &Writer{ByteWriter: rec}
 	verifAssert(w.Initialize() == nil, "C01/v1s/writer-init")
 	verifAssert(w.Write(fr) == nil, "C01/v1s/write-ok")
-	rd := &Reader{BufByteReader: bufio.NewReaderSize(&verifChunkReader{data: rec.buf}, 16)}
+	br := bufio.NewReaderSize(&verifChunkReader{data: append(append([]byte{}, rec.buf...), 0x55)}, 16)
+	rd := &Reader{BufByteReader: br}
 	verifAssert(rd.Initialize() == nil, "C01/v1s/reader-init")
 	got, err := rd.Read()
 	verifAssert(err == nil, "C01/v1s/read-ok")
+	next, nerr := br.ReadByte()
+	verifAssert(nerr == nil && next == 0x55, "C01/v1s/callers-buffer-holds-what-follows-the-frame")
 	g, ok := got.(*V1Frame)
 	verifAssert(ok, "C01/v1s/read-type")
 	verifAssert(verifAnd(g.SequenceNumber == seq, verifAnd(g.SystemID == sys, g.ComponentID == comp)), "C01/v1s/header-fields")
